@@ -41,12 +41,13 @@ def run(chk):
     prog = chk.prog
     f = prog.func(f"{ST}:Structure.add_implicit_hydrogens")
     chk.analysed(f)
-    r1_only_hydrogens(chk, f)
-    branches = r2_pairing(chk, f)
-    r3_coverage(chk, f, branches)
-    r4_formula(chk, f)
-    r5_length(chk, f)
-    r6_orientation_and_table(chk, f)
+    chk.call(r1_only_hydrogens, chk, f)
+    branches = chk.call(r2_pairing, chk, f)
+    if branches is not chk.REFUSED:
+        chk.call(r3_coverage, chk, f, branches)
+    chk.call(r4_formula, chk, f)
+    chk.call(r5_length, chk, f)
+    chk.call(r6_orientation_and_table, chk, f)
 
 
 def _loop(f):
